@@ -55,6 +55,13 @@ func arityScenario(tuple []ct.Comp, depth int) *engine.Scenario {
 		family = append(family, model.FilterSpec{Params: tuple}, model.FilterSpec{Params: tuple, Exclusive: true})
 		if hasX {
 			family = append(family, model.FilterSpec{Params: tuple, Without: ct.Of(x)}, model.FilterSpec{Params: tuple, With: ct.Of(x)})
+			// two excluded components (given in two separate Without calls)
+			for _, y := range []ct.Comp{ct.T10, ct.T11, ct.T8, ct.Q} {
+				if !cs.Has(y) && y != x {
+					family = append(family, model.FilterSpec{Params: tuple, Without: ct.Of(x, y)})
+					break
+				}
+			}
 		}
 		for _, rc := range relc {
 			family = append(family, model.FilterSpec{Params: tuple, Rels: rel(rc, 0)}, model.FilterSpec{Params: tuple, Rels: rel(rc, model.ZeroTarget)})
@@ -62,17 +69,18 @@ func arityScenario(tuple []ct.Comp, depth int) *engine.Scenario {
 	}
 	var obs []model.ObsSpec
 	var pre []model.Op
-	if canObs {
-		for _, ev := range []int{model.EvCreateEntity, model.EvAddComponents, model.EvRemoveComponents, model.EvSetComponents, model.EvRemoveEntity} {
+	for _, ev := range []int{model.EvCreateEntity, model.EvAddComponents, model.EvRemoveComponents, model.EvSetComponents, model.EvRemoveEntity} {
+		if canObs {
 			obs = append(obs, model.ObsSpec{Event: ev, Params: tuple})
-			obs = append(obs, model.ObsSpec{Event: ev, For: cs})
 		}
-		if len(relc) > 0 {
-			obs = append(obs, model.ObsSpec{Event: model.EvAddRelations}, model.ObsSpec{Event: model.EvRemoveRelations})
-		}
-		for i := range obs {
-			pre = append(pre, model.Op{K: model.OpObserve, O: i})
-		}
+		// the generic observer with For(...) must see exactly the events the ID-based API would emit, at every arity
+		obs = append(obs, model.ObsSpec{Event: ev, For: cs})
+	}
+	if len(relc) > 0 {
+		obs = append(obs, model.ObsSpec{Event: model.EvAddRelations}, model.ObsSpec{Event: model.EvRemoveRelations})
+	}
+	for i := range obs {
+		pre = append(pre, model.Op{K: model.OpObserve, O: i})
 	}
 	// entity #0: a plain target
 	pre = append(pre, model.Op{K: model.OpNewPlain})
@@ -99,6 +107,9 @@ func arityScenario(tuple []ct.Comp, depth int) *engine.Scenario {
 			ops = append(ops, model.Op{K: model.OpNewPlain})
 			if hasX {
 				ops = append(ops, model.Op{K: model.OpNew, Path: model.PathUnsafe, Cs: ct.Of(x)})
+				if y := ct.T10; !cs.Has(y) && y != x {
+					ops = append(ops, model.Op{K: model.OpAdd, Path: model.PathUnsafe, E: 0, Cs: ct.Of(y)})
+				}
 			}
 		}
 		k := 0
